@@ -147,8 +147,12 @@ pub struct Finding {
 
 impl Finding {
     pub fn matches(&self, property: &str, f: &Failure) -> bool {
+        let clause_ok = match self.clause.strip_suffix('*') {
+            Some(prefix) => f.clause.starts_with(prefix),
+            None => self.clause == f.clause,
+        };
         self.property == property
-            && self.clause == f.clause
+            && clause_ok
             && self.requires_tags.iter().all(|t| f.tags.contains(t))
             && self
                 .detail_contains
@@ -362,7 +366,14 @@ fn splitmix(mut x: u64) -> u64 {
 
 impl ShardCtx {
     pub fn new(property: &'static str, tier: Tier, seed: u64, shard: u32, nshards: u32, budget: Duration) -> Self {
-        let findings = Findings::load();
+        let mut findings = Findings::load();
+        if std::env::var("VERIF_NO_EXCLUDES").is_ok() {
+            // harvesting mode (never used by registered commands): search the whole domain
+            for f in findings.all.iter_mut() {
+                f.excludes.clear();
+                f.limits.clear();
+            }
+        }
         let excludes = findings.excludes(property);
         ShardCtx {
             property,
